@@ -5,14 +5,16 @@ import gen
 
 PID = 'C12'
 RULE = ('each evaluation is one sequence of load / unload / failing-load (missing file, unsupported extension, duplicate id) / '
-        'step / query operations over three generated traces with overlapping signal names and different lengths, explored '
+        'step / query / one-index-ahead query (tid^sig@1) operations over three generated traces with overlapping signal names and different lengths, explored '
         'breadth-first (all sequences up to length 3 in quick, 4 in thorough, plus random longer ones up to 6) against a '
         'dictionary-of-traces reference (oracle): after every operation loaded-traces, every tid^INDEX/TS/MAX-INDEX/signal/'
         'width/scoped reference, and unqualified names when exactly one trace is loaded; every command also runs on the '
         'extracted Coq model. distinct = distinct operation sequences; non-trivial = at least two traces loaded at some point')
 
 OPS = ['load a', 'load b', 'load c', 'load missing', 'load ext', 'unload a', 'unload b', 'step a', 'step all', 'step all 2',
-       'loadas a b']      # another file under an id that may have been used before
+       'loadas a b',      # another file under an id that may have been used before
+       'ahead a', 'ahead b',   # a query one index ahead on one trace: no trace may have moved afterwards
+       'loadgen a', 'unload t0']   # a load without an id: the generated id t<number of loaded traces> may be taken already
 
 
 def make_traces(rng):
@@ -58,7 +60,18 @@ def make_case(seq, traces, cid):
     for op in seq:
         parts = op.split()
         traces = {t: traces0[src[t]] for t in loaded}
-        if parts[0] == 'loadas':
+        if parts[0] == 'loadgen':
+            file_ = parts[1]
+            tid_ = 't%d' % len(loaded)
+            cmds.append(['try', ['evalstr', '111', f'(load "{file_}.vcd")']])
+            if tid_ in loaded:
+                expect.append('err')
+            else:
+                expect.append('ok N')
+                loaded.append(tid_)
+                idx[tid_] = 0
+                src[tid_] = file_
+        elif parts[0] == 'loadas':
             tid_, file_ = parts[1], parts[2]
             cmds.append(['try', ['evalstr', '111', f'(load "{file_}.vcd" "{tid_}")']])
             if tid_ in loaded:
@@ -85,6 +98,17 @@ def make_case(seq, traces, cid):
                     loaded.append(what)
                     idx[what] = 0
                     src[what] = what
+        elif parts[0] == 'ahead':
+            t = parts[1]
+            # only for a loaded trace: an e that raises inside e@k is outside the claim of C03/C12 (the positions are then
+            # not restored by the implementation), so the id that is not loaded is queried without an offset
+            cmds.append(['try', ['evalstr', '111', f'{t}^top.a@1' if t in loaded else f'{t}^top.a']])
+            if t not in loaded:
+                expect.append('err')
+            elif all(idx[x] + 1 <= traces[x][1]['n'] - 1 for x in loaded):
+                expect.append('ok ' + lib.ser_py(traces[t][1]['signals']['top.a'][idx[t] + 1]))
+            else:
+                expect.append('ok ' + lib.ser_py(False))
         elif parts[0] == 'unload':
             cmds.append(['try', ['evalstr', '111', f'(unload "{parts[1]}")']])
             expect.append('ok N')
@@ -162,6 +186,10 @@ def run(tier, seed, replay=None):
     for _ in range(nrand):
         L = rng.randrange(maxlen + 1, 7)
         seqs.append(tuple(rng.choice(OPS) for _ in range(L)))
+    # always run: a generated id that is taken already (after an unload the count of loaded traces names a live trace)
+    seqs += [('loadgen a', 'loadgen a', 'unload t0', 'loadgen a', 'step all'), ('loadgen a', 'loadgen a', 'unload t0', 'loadgen a', 'unload t1', 'step all'),
+             ('load a', 'loadgen a', 'unload a', 'loadgen a'), ('loadgen a', 'load b', 'load c', 'unload t0', 'unload b', 'loadgen a'),
+             ('loadgen a', 'loadgen a', 'loadgen a', 'unload t0', 'ahead a', 'loadgen a')]
     cases = [make_case(s, traces, i) for i, s in enumerate(seqs)]
     results = lib.run_sessions(cases)
     lib.std_checks(rep, results, oracle)
